@@ -151,7 +151,7 @@ def step_close(e, tier="quick", usage=False, acting=None, others=None, crowd=1):
         mbp, mbq = rows_of(b, pre, "mailboxes"), rows_of(b, post, "mailboxes")
         e1.append(And(mbq.p, mbq.v["app_id"] == mbp.v["app_id"], mbq.v["id"] == mbp.v["id"],
                       mbq.v["for_nameplate"] == mbp.v["for_nameplate"],
-                      mbq.v["updated"] == (when if opened_fresh else mbp.v["updated"])))
+                      mbq.v["updated"] == when))
         for i, (a, q) in enumerate(zip(sides_pre, sides_post)):
             closed_row = And(q.p, q.v["opened"] == 0, q.n["mood"] == mood_null,
                              Implies(has_mood, q.v["mood"] == mood.z),
